@@ -55,6 +55,48 @@ class Context:
         return self.dict_value(it, self.new_state(), v,
                                'commands.INDEX_MAPPING')
 
+    def envelope_function(self):
+        """The function of pamqp.frame that writes the frame envelope:
+        `frame._marshal` by name (through aliases), else the one function of
+        the module other than the reader that packs a 7-octet, 3-field
+        struct format (it may have been renamed)."""
+        import ast
+        from . import terms as T
+        try:
+            return self.prog.function('frame._marshal')
+        except AnalysisError:
+            pass
+        cands = []
+        fmod = self.prog.module('frame')
+        for fi in fmod.functions.values():
+            if fi.name in ('frame_parts', 'unmarshal', 'marshal'):
+                continue
+            for n in ast.walk(fi.node):
+                if isinstance(n, ast.Call) and isinstance(
+                        n.func, ast.Attribute) and n.func.attr == 'pack':
+                    fmt = None
+                    if n.args and isinstance(n.args[0], ast.Constant) and \
+                            isinstance(n.args[0].value, str):
+                        fmt = n.args[0].value
+                    else:
+                        try:
+                            v = self.static().eval_static(
+                                n.func.value, fmod, fmod)
+                            fmt = getattr(v, 'fmt', None)
+                        except Exception:
+                            fmt = None
+                    try:
+                        f = T.fmt(fmt) if isinstance(fmt, str) else None
+                    except Exception:
+                        f = None
+                    if f is not None and f.size == 7 and \
+                            len(f.values) == 3 and fi not in cands:
+                        cands.append(fi)
+        if len(cands) == 1:
+            return cands[0]
+        raise AnalysisError('anchor vanished: the envelope writer of '
+                            'pamqp.frame (frame._marshal)')
+
     def method_classes(self):
         """All classes deriving from base.Frame (the method classes)."""
         frame = self.prog.cls('base.Frame')
